@@ -816,4 +816,81 @@ theorem bindings_snd {V : Type} : ∀ (vs : List V) (n : Nat), (bindings n vs).m
   | [], n => rfl
   | v :: vs, n => by simp [bindings, bindings_snd vs (n + 1)]
 
+/-! ## naming the parameters does not touch well-formedness: the query Prepare renders is valid when the applied one is -/
+
+mutual
+theorem ok_liftO : ∀ (o : Operand) (n : Nat), (liftO n o).ok = o.ok
+  | .var _, _ => rfl
+  | .prop _ _, _ => rfl
+  | .param _, _ => rfl
+  | .lit _, _ => rfl
+  | .fn f a, n => by simp [liftO, Operand.ok, ok_liftO a n]
+  | .list xs, n => by simp [liftO, Operand.ok, oks_liftOs xs n]
+theorem oks_liftOs : ∀ (xs : List Operand) (n : Nat), Operand.oks (liftOs n xs) = Operand.oks xs
+  | [], _ => rfl
+  | x :: xs, n => by simp [liftOs, Operand.oks, ok_liftO x n, oks_liftOs xs (n + cntO x)]
+end
+
+mutual
+theorem valid_liftE : ∀ (e : Expr) (n : Nat), valid (liftE n e) = valid e
+  | .cmp l op r, n => by simp [liftE, valid, ok_liftO]
+  | .isNull l b, n => by simp [liftE, valid, ok_liftO]
+  | .kinds _ _ _, _ => rfl
+  | .neg c, n => by simp [liftE, valid, valid_liftE c n]
+  | .paren c, n => by simp [liftE, valid, valid_liftE c n]
+  | .join op es, n => by
+    have h := valids_liftEs es n
+    cases es with
+    | nil => rfl
+    | cons c cs => simp only [liftE, liftEs, valid] at h ⊢; simp [liftEs] at h ⊢; exact h
+theorem valids_liftEs : ∀ (es : List Expr) (n : Nat), valids (liftEs n es) = valids es
+  | [], _ => rfl
+  | e :: es, n => by simp [liftEs, valids, valid_liftE e n, valids_liftEs es (n + cntE e)]
+end
+
+theorem all_liftL {α : Type} (c : α → Nat) (l : Nat → α → α) (ok : α → Bool) (h : ∀ k x, ok (l k x) = ok x) :
+    ∀ (xs : List α) (n : Nat), (liftL c l n xs).all ok = xs.all ok
+  | [], _ => rfl
+  | x :: xs, n => by simp [liftL, h, all_liftL c l ok h xs (n + c x)]
+
+theorem isEmpty_liftL {α : Type} (c : α → Nat) (l : Nat → α → α) (xs : List α) (n : Nat) :
+    (liftL c l n xs).isEmpty = xs.isEmpty := by cases xs <;> rfl
+
+theorem isEmpty_liftPat (p : List PatEl) (n : Nat) : (liftPat n p).isEmpty = p.isEmpty := by cases p <;> rfl
+
+theorem ok_liftItem (k : Nat) (it : Item) : (liftItem k it).ok = it.ok := by
+  cases it <;> simp [liftItem, Item.ok, ok_liftO]
+
+theorem ok_liftSetItem (k : Nat) (it : SetItem) : (liftSetItem k it).ok = it.ok := by
+  cases it <;> simp [liftSetItem, SetItem.ok, ok_liftO]
+
+theorem optOk_lift (x : Option Operand) (k : Nat) : optOk (x.map (liftO k)) = optOk x := by
+  cases x <;> simp [optOk, ok_liftO]
+
+theorem ok_liftUpd (k : Nat) (u : Upd) : (liftUpd k u).ok = u.ok := by
+  cases u with
+  | set items => simp [liftUpd, Upd.ok, isEmpty_liftL, all_liftL cntSetItem liftSetItem SetItem.ok ok_liftSetItem]
+  | remove items => rfl
+  | delete d vs => rfl
+  | create pat => simp [liftUpd, Upd.ok, isEmpty_liftPat]
+
+theorem ok_liftProj (n : Nat) (p : Proj) : (liftProj n p).ok = p.ok := by
+  obtain ⟨d, items, order, sk, lim⟩ := p
+  simp only [liftProj, Proj.ok, isEmpty_liftL, optOk_lift,
+    all_liftL cntItem liftItem Item.ok ok_liftItem,
+    all_liftL (fun s : SortItem => cntO s.o) (fun k s => ⟨liftO k s.o, s.asc⟩) (fun s => s.o.ok) (fun k x => ok_liftO x.o k)]
+
+theorem validQ_liftQ (q : Query) (n : Nat) : validQ (liftQ n q) = validQ q := by
+  obtain ⟨pat, w, us, ret⟩ := q
+  simp only [validQ, liftQ]
+  congr 1
+  · congr 1
+    · cases w with
+      | none => rfl
+      | some e => simp [valid_liftE, isEmpty_liftPat]
+    · exact all_liftL cntUpd liftUpd Upd.ok ok_liftUpd us _
+  · cases ret with
+    | none => rfl
+    | some p => simp [ok_liftProj]
+
 end Dawgs.C10
